@@ -308,6 +308,16 @@ def ops_for(pid):
         return {'name': 'x.expanding().%s' % name, 'kind': P, 'index': 'int',
                 'build': lambda s, p: getattr(s.x.expanding(), name)(), 'oracle': lambda d, p: getattr(d.x, name)()}
 
+    def ewm_kw(**kw):
+        label = ', '.join('%s=%s' % kv for kv in kw.items())
+
+        def oracle(d, p):
+            if d.x.isna().any():
+                return None
+            return d.x.ewm(**kw).mean().iloc[-1]
+        return {'name': 'x.ewm(%s).mean' % label, 'kind': P, 'index': 'int', 'build': lambda s, p: s.x.ewm(**kw).mean(),
+                'oracle': oracle, 'last_value': True}
+
     def ewm(com):
         def oracle(d, p):
             if d.x.isna().any():
@@ -326,7 +336,9 @@ def ops_for(pid):
         from streamz.core import no_default
         return {'name': name + ' [resume from running total]', 'kind': 'resume', 'index': 'int',
                 'build': lambda s, st: build(s, st), 'first_start': None, 'state_of': lambda r: r, 'value_of': lambda r: r}
-    if pid == 'C12':
+    if pid in ('C12', 'C16'):
+        # (C16: a failing batch leaves accumulate.state as it was only if the accumulator functions never update the state they
+        # are given in place; the resume-from-emitted-state runs detect exactly that)
         return [resume('window(n=2).x.sum', lambda s, st: s.window(n=2, with_state=True, start=st).x.sum()),
                 resume('window(n=3).x.mean', lambda s, st: s.window(n=3, with_state=True, start=st).x.mean()),
                 resume('window(n=2).x.var', lambda s, st: s.window(n=2, with_state=True, start=st).x.var()),
@@ -335,6 +347,8 @@ def ops_for(pid):
                 resume("window(n=2).groupby('k').x.sum", lambda s, st: s.window(n=2, with_state=True, start=st).groupby('k').x.sum()),
                 resume("window(n=3).groupby('k').x.mean", lambda s, st: s.window(n=3, with_state=True, start=st).groupby('k').x.mean()),
                 resume("groupby('k').x.mean", lambda s, st: s.groupby('k').x.mean(with_state=True, start=st)),
+                resume("window(n=2).groupby(<streaming series k>).x.sum", lambda s, st: s.window(n=2, with_state=True, start=st).groupby(s.k).x.sum()),
+                resume("window(n=3).groupby(<streaming series k>).x.count", lambda s, st: s.window(n=3, with_state=True, start=st).groupby(s.k).x.count()),
                 resume('window(n=2)[x,y].mean', lambda s, st: s.window(n=2, with_state=True, start=st)[['x', 'y']].mean()),
                 resume('expanding()[x,y].mean', lambda s, st: s.expanding(with_state=True, start=st)[['x', 'y']].mean()),
                 resume('ewm(com=1).x.mean', lambda s, st: s.ewm(com=1, with_state=True, start=st).x.mean()),
@@ -357,7 +371,8 @@ def ops_for(pid):
     if pid == 'C11':
         return [roll('sum', 2), roll('mean', 3), roll('max', 1), roll('count', 3), roll_t('sum', 2), roll_t('mean', 3),
                 cumf('cumsum'), cumf('cummax'), cum_local('cumsum'), cum_local('cummin'), cum('cumsum'), cum('cumprod'), cum('cummax'),
-                cum('cummin'), expanding('sum'), expanding('mean'), ewm(1), ewm(0.5)]
+                cum('cummin'), expanding('sum'), expanding('mean'), ewm(1), ewm(0.5),
+                ewm_kw(span=4), ewm_kw(span=2.5), ewm_kw(alpha=0.3), ewm_kw(halflife=2)]
     return []
 
 
